@@ -667,6 +667,14 @@ class Engine:
             return a.t == b.t
         if isinstance(a, (ClassV, type)) and isinstance(b, (ClassV, type)):
             return a == b
+        # a bytearray modelled as a list of ints (ListV of kind "bytearray", set by the contract) against a CONCRETE
+        # byte string: Python compares contents (pointwise, concrete length)
+        for x_, y_ in ((a, b), (b, a)):
+            if isinstance(x_, ListV) and x_.kind == "bytearray" and isinstance(y_, (bytes, bytearray)):
+                if x_.et is None:
+                    return self.llen(x_) == len(y_)
+                arr_ = self.larrs(x_)[0]
+                return z3.And(self.llen(x_) == len(y_), *[z3.Select(arr_, j_) == int(y_[j_]) for j_ in range(len(y_))])
         # values of unrelated Python types never compare equal (int vs tuple, int vs class ...)
         if ka is not None and kb is not None and ka != kb:
             return False
